@@ -59,10 +59,21 @@ def generate(rng, tier) -> dict:
                 dt = rng.choice(DT_FOREIGN)
             sc["ops"].append({"op": "cwrite", "n": rng.randint(1, mx // 3), "dtype": dt, "vals": "rep" if (foreign or rng.random() < 0.85) else "unrep",
                               "layout": rng.choice(["1d", "1d", "1d", "1d-strided", "2d-C", "2d-F"])})
+        if rng.random() < (0.002 if tier == "quick" else 0.01):
+            # ONE write of more than 2^24 samples (a whole observation handed over at once): counts beyond 2^24 are where a
+            # piece-wise path, a float32 count or a 32-bit size starts to matter; odd sample counts make pieces ragged
+            sc["nchans"] = rng.choice([c for c in (8, 24, 64) if (c * d) % 8 == 0])
+            natural = {1: "uint8", 2: "uint8", 4: "uint8", 8: "uint8", 16: "uint16", 32: "float32"}[d]
+            sc["ops"] = [{"op": "cwrite", "n": (1 << 24) // sc["nchans"] + rng.choice([1, 3, 1001, 70001]), "dtype": natural, "vals": "rep", "layout": rng.choice(["1d", "2d-C"])}]
+            sc["huge"] = True
+            sc.pop("big", None)
         sc["reads"] = [[rng.random(), rng.random()] for _ in range(2)]
         # an EARLIER product written from the same header at another depth (a session that writes several files)
         sc["pre_depth"] = rng.choice([None, None, 1, 2, 4, 8, 16, 32])
         sc["gulp"] = rng.randint(1, mx)
+        if sc.get("huge"):
+            sc["gulp"] = sc["ops"][0]["n"] // rng.choice([1, 3, 7]) + 1  # read back in a few blocks, not in a million
+            sc["pre_depth"] = None
         if rng.random() < 0.2:
             sc["faults"].append({"kind": "W3", "op": 0, "call": rng.randint(1, len(sc["ops"])), "arg": rng.randint(0, 12)})
     else:
@@ -178,6 +189,8 @@ def exec_fil(sc, ctx, sim, mk) -> None:
     ctx.probe(f"depth:{d}")
     if sc.get("big"):
         ctx.probe("big-chunks")
+    if sc.get("huge"):
+        ctx.probe("one-write-of-more-than-2^24-samples")
     ctx.sig.append(f"d{d}")
     fdt = np.dtype(filgen.DTYPES[d])
     hdr = base_header(ctx, nch).new_header({"tsamp": sc["tsamp"], "tstart": sc["tstart"], "dm": sc["dm"], "nchans": nch})
